@@ -79,8 +79,25 @@ def run(ctx, broken):
                 k = rng.below(2)
                 src = "w %s;w %s;%s %d $0 $1" % (hx(va if k == 0 else vb), hx(vb if k == 0 else va), name, pairs)
                 specs.append((src, k, va, [name, "alias-x-plus-r"]))
+    # OPERAND SUBSTITUTION: every chain witness is generated from ANOTHER integer x' than the operand's value (host view), the
+    # operand witness itself keeps x: only the binding of that operand's chain to the operand rejects it. The other operand
+    # is an ordinary witness, the SAME value, or one of the composer's constant handles (#0 / #1).
+    for pairs in ([1, 8, 16, 32, 127] if ctx.tier == "quick" else range(1, 128, 3)):
+        for name in ("and", "xor"):
+            for other in ("w", "#0", "#1"):
+                for side in (0, 1):
+                    m_ = (1 << (2 * pairs))
+                    x = rng.fe() % m_
+                    x2 = (x ^ (1 + rng.below(m_ - 1))) % m_ if m_ > 1 else x
+                    if x2 == x:
+                        continue
+                    if other == "w":
+                        src = "w %s;w %s;%s %d %s" % (hx(x), hx(rng.fe() % m_), name, pairs, "$0 $1" if side == 0 else "$1 $0")
+                    else:
+                        src = "w %s;%s %d %s" % (hx(x), name, pairs, ("$0 " + other) if side == 0 else (other + " $0"))
+                    specs.append((src, 0, x, [name, "operand-substitution", "other=" + other], x2))
     alias = full_alias_cases(ctx, specs)
-    # NON-CANONICAL RE-DECOMPOSITION of one operand (layout-driven): with the other operand 0 every product wire and every
+    # OPERAND SUBSTITUTION (all chain witnesses generated from another integer via the host-view hook; other operand a witness or a constant handle); NON-CANONICAL RE-DECOMPOSITION of one operand (layout-driven): with the other operand 0 every product wire and every
     # output quad is 0, so lowering ONE accumulator of the chain by 1 turns quad t-1 into d-1 (still a quad) and quad t into
     # d+4: only the range identity of that operand's quads rejects it. The accumulator witnesses are located in a dump of the
     # real composer by their honest values (prefixes of an operand whose base-4 digits are all 1..3).
@@ -112,7 +129,7 @@ def run(ctx, broken):
     st = r.report(broken)
     st["exhaustive_in_width"] = True
     st["rule"] = ("both operations x every pair count 0..=127 (layout exhaustive); inputs all-ones, r-1, pairs differing only "
-                  "above the width, 0/r-1, random; returned witness forged (expect unsat) or a product wire forged (model decides); NON-CANONICAL RE-DECOMPOSITION of one operand while the other is 0 (one accumulator lowered by 1: a quad of d+4, located in the real layout); COMPLETE x+r alias assignments of one input (quads, accumulators, high part, "
+                  "above the width, 0/r-1, random; returned witness forged (expect unsat) or a product wire forged (model decides); OPERAND SUBSTITUTION (all chain witnesses generated from another integer via the host-view hook; other operand a witness or a constant handle); NON-CANONICAL RE-DECOMPOSITION of one operand while the other is 0 (one accumulator lowered by 1: a quad of d+4, located in the real layout); COMPLETE x+r alias assignments of one input (quads, accumulators, high part, "
                   "guard helper wires all consistent; only the canonical guard rejects) at limb-boundary pair counts (all in thorough). "
                   "Each case: layout/witness hashes impl vs model, returned value vs bitwise op on canonical values (Python oracle), "
                   "prove+verify vs model sysSat.")
